@@ -103,4 +103,36 @@ theorem wfFrom_render (R : Render A) :
       rw [e1] at this
       exact this
 
+theorem oView_cmds {e : Ent A} {L : Log A} (h : Inv e L) (R : Render A) :
+    (oView R e.kv).cmds = renderFrom (oCmd R) 0 L := oCmds_eq h R
+
+
+/-- Appending a record to the log appends its rendering to the view and changes nothing else. -/
+theorem appendedOne_of_append {e e' : Ent A} {L : Log A} {sc : Stored A} (h : Inv e L)
+    (h' : Inv e' (L ++ [sc])) (R : Render A) (hsnap : e'.kv.snapshot = e.kv.snapshot)
+    (hver : sc.version = L.length) (isErr : Bool) (kind : String)
+    (heff : match (oCmd R L.length sc).effect with
+      | .err k => isErr = true ∧ k = kind
+      | .ok _ => isErr = false
+      | .init _ => False) :
+    appendedOne (oView R e.kv) (oView R e'.kv) sc.actor isErr kind = true := by
+  unfold appendedOne
+  have hc : (oView R e.kv).cmds = renderFrom (oCmd R) 0 L := oView_cmds h R
+  have hc' : (oView R e'.kv).cmds = renderFrom (oCmd R) 0 L ++ [oCmd R L.length sc] := by
+    rw [oView_cmds h' R, renderFrom_append]; simp [renderFrom]
+  have hlen : (renderFrom (oCmd R) 0 L).length = L.length := length_renderFrom _ _ _
+  have hs : (oView R e'.kv).snap = (oView R e.kv).snap := by simp [oView, oSnap, hsnap]
+  rw [hc, hc', hs, hlen]
+  rw [List.take_left' hlen, List.drop_left' hlen]
+  simp only [beq_self_eq_true, Bool.true_and]
+  have h1 : (oCmd R L.length sc).key = L.length := rfl
+  have h2 : (oCmd R L.length sc).version = L.length := hver
+  have h3 : (oCmd R L.length sc).actor = sc.actor := rfl
+  simp only [h1, h2, h3, beq_self_eq_true, Bool.true_and]
+  cases hE : (oCmd R L.length sc).effect with
+  | init s => rw [hE] at heff; exact heff.elim
+  | ok s => rw [hE] at heff; simp [heff]
+  | err k => rw [hE] at heff; simp [heff.1, heff.2]
+
+
 end KM.ES.Obs
